@@ -4,13 +4,16 @@
    (a z3 Bool variable whose valuation is value <> 0).  The operand in position i is variable i.
    Result encoding: [0; flag; denotation] with flag 0 = concrete HalmosBitVec, 1 = symbolic
    HalmosBitVec, 2 = TRUE/FALSE, 3 = symbolic HalmosBool;  [1 + e] for the internal exception e
-   (1 NotConcreteError, 2 ZeroDivisionError, 3 TypeError, 4 NotImplementedError);
+   (1 NotConcreteError, 2 ZeroDivisionError, 3 TypeError, 4 NotImplementedError, 5 StackUnderflowError,
+   6 AttributeError, 7 ValueError, 8 wrong stack depth after the instruction);
    [9; work] when the all-concrete EXP path would materialise an integer of more than 4096
-   bits (the model value x ^ y is then not evaluated here; `work` is the predicted bit size). *)
+   bits according to the regenerated work measure (the model value is then not evaluated here;
+   `work` is the predicted bit size).  With pow(lhs, rhs, 1 << size) the measure is 2 * size + 2
+   and this never happens; it does as soon as the source computes the unreduced power again. *)
 From Coq Require Import ZArith List Bool String.
 From Coq Require Extraction.
 From Coq Require Import ExtrOcamlBasic ExtrOcamlString.
-From HV Require Import Base.Word Base.SmtBV Gen.GenBitvecGuards Model.BitVecModel.
+From HV Require Import Base.Word Base.SmtBV Model.PyInt Model.WordOpsIR Gen.GenBitvecGuards Gen.GenWordOps Model.BitVecModel.
 Import ListNotations.
 Open Scope Z_scope.
 
@@ -24,7 +27,10 @@ Definition mk_ev (v0 v1 v2 : Z) (id : Z) : Z := if id =? 0 then v0 else if id =?
 Definition mk_eb (v0 v1 v2 : Z) (id : Z) : bool := negb (mk_ev v0 v1 v2 id =? 0).
 
 Definition err_code (e : err) : Z :=
-  match e with ENotConcrete => 1 | EZeroDivision => 2 | ETypeError => 3 | ENotImplemented => 4 end.
+  match e with
+  | ENotConcrete => 1 | EZeroDivision => 2 | ETypeError => 3 | ENotImplemented => 4
+  | EStackUnderflow => 5 | EAttribute => 6 | EValue => 7 | EStackDepth => 8
+  end.
 Definition enc_bv ev eb (x : bv) : list Z :=
   match x with Cv v => [0; 0; v] | Sv t => [0; 1; eval ev eb t] end.
 Definition enc_bl ev eb (x : bl) : list Z :=
@@ -35,13 +41,6 @@ Definition enc_res {A} (f : A -> list Z) (r : res A) : list Z :=
   match r with Ok a => f a | Err e => [1 + err_code e] end.
 
 Definition WORK_LIMIT : Z := 4096.
-(* cost of evaluating the model's own [x ^ y] here: Z.pow iterates y times even for x <= 1,
-   where CPython answers at once (exp_work = 0) *)
-Definition eval_cost (a b : bv) : Z :=
-  match a, b with
-  | Cv x, Cv y => if y <=? 1 then 0 else if x <=? 1 then y else y * Z.log2 x
-  | _, _ => 0
-  end.
 
 Definition op_of (z : Z) : option op :=
   nth_error [ADD; MUL; SUB; DIV; SDIV; MOD; SMOD; EXP; SIGNEXTEND; LT; GT; SLT; SGT; EQ; AND; OR; XOR;
@@ -57,7 +56,7 @@ Definition c06_run2 (a : list Z) : list Z :=
           let y := dec_val 1 k2 v2 in
           let ev := mk_ev v1 v2 0 in
           let eb := mk_eb v1 v2 0 in
-          let w := match o with EXP => eval_cost (popi x) (popi y) | _ => 0 end in
+          let w := match o with EXP => exp_work 256 (popi x) (popi y) | _ => 0 end in
           if WORK_LIMIT <? w then [9; w]
           else enc_res (enc_val ev eb) (run2 sebc o x y)
       | None => []
@@ -89,7 +88,7 @@ Definition c06_axioms (a : list Z) : list Z :=
   | [o; k1; v1; k2; v2] =>
       match op_of o with
       | Some o => map (fun c => b2w (beval (mk_ev v1 v2 0) (mk_eb v1 v2 0) c))
-                      (arith_axioms o (dec_val 0 k1 v1) (dec_val 1 k2 v2))
+                      (arith_axioms 2 o (dec_val 0 k1 v1) (dec_val 1 k2 v2))
       | None => []
       end
   | _ => []
@@ -110,20 +109,21 @@ Definition c06_method (a : list Z) : list Z :=
       let ev := mk_ev v1 v2 v3 in
       let eb := mk_eb v1 v2 v3 in
       let abs := negb (ab =? 0) in
+      let A (f : uf) : option uf := if abs then Some f else None in
       let B := enc_bv ev eb in
       let L := enc_bl ev eb in
       match m with
-      | 0 => B (bv_add n x y) | 1 => B (bv_sub n x y) | 2 => B (bv_mul n abs x y)
-      | 3 => B (bv_div n abs x y) | 4 => enc_res B (bv_sdiv n abs x y)
-      | 5 => B (bv_mod n abs x y) | 6 => B (bv_smod n abs x y)
-      | 7 => if WORK_LIMIT <? eval_cost x y then [9; exp_work x y]
-             else enc_res B (bv_exp n abs abs sebc x y)
+      | 0 => B (bv_add n x y) | 1 => B (bv_sub n x y) | 2 => B (bv_mul n (A Fmul) x y)
+      | 3 => enc_res B (bv_div n (A Fudiv) x y) | 4 => enc_res B (bv_sdiv n (A Fsdiv) x y)
+      | 5 => enc_res B (bv_mod n (A Furem) x y) | 6 => B (bv_smod n (A Fsrem) x y)
+      | 7 => if WORK_LIMIT <? exp_work n x y then [9; exp_work n x y]
+             else enc_res B (bv_exp n (A Fexp) (A Fmul) sebc x y)
       | 8 => B (bv_lshl n x y) | 9 => B (bv_lshr n x y) | 10 => B (bv_ashr n x y)
       | 11 => B (bv_and n x y) | 12 => B (bv_or n x y) | 13 => B (bv_xor n x y)
       | 14 => L (bv_ult n x y) | 15 => L (bv_ugt n x y) | 16 => L (bv_ule n x y)
       | 17 => L (bv_uge n x y) | 18 => L (bv_slt n x y) | 19 => L (bv_sgt n x y)
       | 20 => L (bv_eq n x y) | 21 => B (bv_not n x) | 22 => L (bv_is_zero n x)
-      | 23 => enc_res B (bv_addmod n abs x y z) | 24 => enc_res B (bv_mulmod n abs abs x y z)
+      | 23 => enc_res B (bv_addmod n (A Furem) x y z) | 24 => enc_res B (bv_mulmod n (A Fmul) (A Furem) x y z)
       | 25 => B (bv_byte n x v2 v3)
       | 26 => B (bv_signextend x v2)
       | _ => []
@@ -131,11 +131,14 @@ Definition c06_method (a : list Z) : list Z :=
   | _ => []
   end.
 
-(* the generated pure functions: [f; args...]  f: 0 is_power_of_two x, 1 to_signed x bit_size *)
+(* the generated pure functions: [f; args...]  f: 0 is_power_of_two x, 1 to_signed x bit_size,
+   2 py_pow3 a e m, 3 exp_work n (Cv x) (Cv y) *)
 Definition c06_pure (a : list Z) : list Z :=
   match a with
   | [0; x] => [b2w (is_power_of_two x)]
   | [1; x; n] => [to_signed x n]
+  | [2; x; e; m] => [py_pow3 x e m]
+  | [3; n; x; y] => [exp_work n (Cv x) (Cv y)]
   | _ => []
   end.
 
